@@ -200,4 +200,44 @@ theorem flood (es : List Ev) : ∀ s, Exact s → Bounded s → s.writing = true
         · intro e' he'; exact hall e' (by simp [he'])
         · rw [hstep, hck, hz']; omega
 
+theorem body_closed (s : St) (e : Ev) : (body s e).closed = s.closed := by
+  cases e with
+  | recv k can => exact writeCtlN_closed k s can
+  | settings can => simp only [body]; rw [schedule_closed]
+  | handler can => simp only [body, writeStream]; rw [schedule_closed]
+  | wrote can =>
+    simp only [body]
+    split
+    · rw [schedule_closed]
+    · rfl
+
+/-- an iteration that does not push the queue over the limit does not close the connection -/
+theorem step_not_closed (s : St) (e : Ev) (hx : Exact s) (hc : s.closed = false)
+    (hle : s.zero + e.k ≤ limit) : (step s e).closed = false := by
+  have h1 := body_zero_le s e
+  have h2 := body_exact s e hx
+  have h3 := body_closed s e
+  have hck : ¬ ((body s e).counter > (limit : Int)) := by unfold Exact at h2; omega
+  have : check (body s e) = body s e := by unfold check; simp [hck]
+  unfold step
+  simp [hc, this, h3]
+
+theorem run_snoc (s : St) (pre : List Ev) (e : Ev) : runEvs s (pre ++ [e]) = step (runEvs s pre) e := by
+  simp [runEvs, List.foldl_append]
+
+theorem no_false_close (es : List Ev) : ∀ s, Exact s → s.closed = false →
+    (∀ pre e, (pre ++ [e]) <+: es → (runEvs s pre).zero + e.k ≤ limit) →
+    (runEvs s es).closed = false := by
+  induction es with
+  | nil => intro s _ hc _; exact hc
+  | cons e r ih =>
+    intro s hx hc h
+    have h0 := h [] e (by simp)
+    have hs := step_not_closed s e hx hc (by simpa [runEvs] using h0)
+    show (runEvs (step s e) r).closed = false
+    apply ih (step s e) (step_exact s e hx) hs
+    intro pre e' hp
+    have := h (e :: pre) e' (by simpa using List.prefix_cons_inj e |>.mpr hp)
+    simpa [runEvs] using this
+
 end BfeVerif.C37
